@@ -17,6 +17,7 @@ int ssw_step(search_module_t *s, int frame_idx) { (void)s; (void)frame_idx; int 
 int (*ssw_keep_step)(search_module_t *, int) = ssw_step;
 void h_search_module_forward(void) { decoder_t *d; search_module_forward(d); VERIF_CANARY(); }
 #else
+void h_decoder_process_float32(void) { decoder_t *d; float32 *p; size_t n; int a, b; decoder_process_float32(d, p, n, a, b); VERIF_CANARY(); }
 void h_decoder_process_int16(void) { decoder_t *d; int16 *p; size_t n; int a, b; decoder_process_int16(d, p, n, a, b); VERIF_CANARY(); }
 #endif
 #endif
